@@ -273,6 +273,11 @@ def passAbsent (c : Cfg) : List PassResult :=
   | none => [⟨none, .raised, []⟩]
   | some body => [⟨some body, .retry c.createDelay, [.post body]⟩]
 
+/-- the GET itself was answered with an error (`load_api_resource`: any `ServerError` other than 404, any
+    other exception): nothing is known about the object, the pass waits and writes nothing -/
+def passLoadFailed (cluster : Option JVal) : List PassResult :=
+  [⟨cluster, .retry (.int loadRetryDelay), []⟩]
+
 def pass (c : Cfg) (t : JVal) (cluster : Option JVal) : List PassResult :=
   match cluster with
   | none => passAbsent c
